@@ -439,6 +439,33 @@ fn check_struct_input(i: usize) -> Verdict {
     }
 }
 
+/// none as the (repeated, cached) answer of a user function behaves like any other none
+fn check_none_answers() -> Verdict {
+    let mut fns = std::collections::BTreeMap::new();
+    fns.insert("fa".to_string(), me::FnSpec { cacheable: true, fail_on: vec![], fail_first: 0, uncacheable_after: 0 });
+    fns.insert("fb".to_string(), me::FnSpec { cacheable: false, fail_on: vec![], fail_first: 0, uncacheable_after: 0 });
+    let ans = |f: &str| Expr::func(f, Expr::value("none".to_string()));
+    for f in ["fa", "fb"] {
+        let e = Expr::Vec(vec![
+            Expr::index(ans(f), Index::Map("a".into())),
+            Expr::index(ans(f), Index::Map("a".into())),
+            Expr::index(ans(f), Index::Vec(0)),
+            Expr::index(Expr::index(ans(f), Index::Vec(0)), Index::Map("x".into())),
+            Expr::add(ans(f), Expr::value(1)),
+            Expr::gt(ans(f), Expr::value(1)),
+            Expr::eq(ans(f), ans(f)),
+            Expr::neq(ans(f), ans(f)),
+            Expr::contains(ans(f), Expr::value(1)),
+            mk1("is_none", ans(f)),
+            Expr::uppercase(ans(f)),
+            Expr::not(ans(f)),
+        ]);
+        let case = EvalCase { expr: e, facts: Value::None, fns: fns.clone(), symbols: Default::default() };
+        check_deep(&case).map_err(|i| Issue::new(i.sig.replace("none-tree:", "none-answer:"), i.msg))?;
+    }
+    Ok(())
+}
+
 fn check_none_input(i: usize) -> Verdict {
     let e = none_input_exprs().swap_remove(i);
     let want = me::eval_plain(&e, &Value::None);
@@ -572,6 +599,9 @@ pub fn run(ctx: &Ctx) {
         |i, acc| {
             acc.cell("none-input", true);
             acc.sample("none-input", || show_expr(&none_input_exprs()[i as usize]));
+            if i == 0 {
+                check_none_answers()?;
+            }
             check_none_input(i as usize)
         },
         |i| serde_json::json!({"none_input": i, "text": show_expr(&none_input_exprs()[i as usize])}),
